@@ -15,7 +15,7 @@ from mc.checks import rules_common as R
 
 PROPERTY = "C09"
 LEVEL = "exploration"
-RULE = ("cases = every ordered sequence of 1..K distinct rules over a 19-rule alphabet (incl. one rule with a 2100-character pattern) plus every sequence of K+1 rules over its 12 core rules (K=3 quick, 4 thorough) "
+RULE = ("cases = every ordered sequence of 1..K distinct rules over a 20-rule alphabet (incl. one rule with a 2100-character pattern and one whose function names are in other letter cases) plus every sequence of K+1 rules over its 12 core rules (K=3 quick, 4 thorough) "
         "(priority unset/0/10/90; 1 or 2 pattern functions; constraint kinds none/amount/amount+month/source; short/long patterns; "
         "subcategory set/unset; one tag-only rule; exact-tie pairs (contains vs regex with equal key, amount vs source constraint)); "
         "each on 30 transactions via engine.match and normalize_merchant in most_specific mode; plus a legacy-CSV family in most_specific mode (library and `tally up --migrate`). "
@@ -53,6 +53,8 @@ RULES = [
     # a very long pattern text (one component of the rank far larger than the others): still only the LAST component, so every rule
     # with a constraint kind or a second pattern function outranks it
     {"name": "r18", "match": 'anyof("UBER", "' + "X" * 2100 + '")', "category": "Q", "subcategory": "q"},
+    # function names written in other letter cases (accepted by the language) count as pattern conditions like any other
+    {"name": "r19", "match": 'Contains("UBER") and CONTAINS("EATS")', "category": "R", "subcategory": "r"},
 ]
 PATTERN_FUNCS = {"contains", "regex", "normalized", "startswith", "fuzzy", "anyof"}
 KINDS = {"amount", "date", "month", "year", "day", "weekday", "source"}
@@ -95,7 +97,7 @@ def setup(tier):
 
 
 def bounds(tier):
-    return {"max_rules_per_file": "3 over all 18 rules, 4 over the 12 core rules" if tier == "quick" else "4 over all 18 rules, 5 over the 12 core rules", "rules_alphabet": len(RULES), "transactions": len(TXNS),
+    return {"max_rules_per_file": "3 over all 20 rules, 4 over the 12 core rules" if tier == "quick" else "4 over all 20 rules, 5 over the 12 core rules", "rules_alphabet": len(RULES), "transactions": len(TXNS),
             "rank_keys": {r["name"]: k for r, k in zip(RULES, KEYS)}}
 
 
